@@ -10,7 +10,7 @@ namespace XzVerif.MtEnc
 /-- A step that only re-evaluates a wait condition which is still false (the thread goes back to sleep). -/
 def Stutter (s : St) : Ev → Prop
   | .mWake => waitCond s = false
-  | .wTop i => ∃ e w, s.outq[i]? = some e ∧ e.wk = some w ∧ needsRun e w = false
+  | .wTop i _ => ∃ e w, s.outq[i]? = some e ∧ e.wk = some w ∧ needsRun e w = false
   | .wEnc i _ _ => ∃ e w, s.outq[i]? = some e ∧ e.wk = some w ∧ needsRun e w = false
   | .wFb i => ∃ e w, s.outq[i]? = some e ∧ e.wk = some w ∧ needsRun e w = false
   | _ => False
@@ -35,11 +35,11 @@ theorem worker_can_step {P : Params} {s : St} {i : Nat} {e : Entry} {w : WCtx} (
   | top =>
     have hst : w.state ≠ .idle := by
       intro a; simp [needsRun, hpc, a] at hn
-    have : ∃ s', wTop s i = some s' := by
+    have : ∃ s', wTop P s i 0 = some s' := by
       unfold wTop; simp only [hi, hw, hpc, hcan, and_self, if_true]
       cases hs : w.state <;> simp_all
     obtain ⟨s', hs'⟩ := this
-    exact ⟨.wTop i, s', hs', rfl, fun ⟨e', w', a, b, c⟩ => nost e' w' a b c⟩
+    exact ⟨.wTop i 0, s', hs', rfl, fun ⟨e', w', a, b, c⟩ => nost e' w' a b c⟩
   | enc =>
     have hnb : ¬(w.lIn = e.data.length ∧ w.state = .run) := by
       intro a; simp [needsRun, hpc, a.1, a.2] at hn
